@@ -89,6 +89,12 @@ def run(ck):
             base_name = nm.split("_")[0] + "_" + nm.split("_")[1]
             ck.violation(f"{tag}: {op} pairs={P}: rows of the real layout satisfiable={got}, property requires {expect[nm]}",
                          {"failing_input_found": True, "program": progs.get(base_name), "template": tag, "pairs": P}, key=f"{tag}:{op}:{P}")
+    base_of = lambda n: n.split("_")[0] + "_" + n.split("_")[1]
+    for nm, over in composer.second_opinion(ck, jobs, expect, progs, base_of, "c10_rp",
+                                            lambda n: n.endswith(("_3", "_2", "_o", "_alias")) and n.count("_") == 2, limit=8 if quick else 40, pp_log=10):
+        tag, op, P = info[nm]
+        ck.violation(f"{tag}: {op} pairs={P}: the REAL prover produced a proof for this assignment and the verifier accepted it",
+                     {"failing_input_found": True, "program": progs[base_of(nm)], "witness_overrides": {str(i): hx(v) for i, v in over.items()}, "template": tag}, key=f"accepted:{tag}:{op}")
     if (bad or wbad) and not ck.violations:
         if bad:
             name, d = bad[0]
